@@ -5,6 +5,7 @@ import (
 	"encoding/json"
 	"errors"
 	"fmt"
+	"github.com/ipfs/go-cid"
 	carv2 "github.com/ipld/go-car/v2"
 	"os"
 	"path/filepath"
@@ -82,6 +83,14 @@ func c20RunHistory(t *mon.T, target string, hist []string, dir string) {
 	}
 	rootsRaw := [][]byte{blk["k1"].Cid}
 	roots := lab.ToCids(rootsRaw, false)
+	switch len(hist) % 5 {
+	case 3:
+		roots = []cid.Cid{} // no roots, as an empty non-nil list: the header says [] (0x80)
+		t.Cover("roots:empty-list")
+	case 4:
+		roots = nil // no roots, as nil: the header says null (0xf6)
+		t.Cover("roots:nil")
+	}
 	hstr := strings.Join(hist, " ")
 	viol := func(key, format string, a ...any) {
 		t.ViolateD("deferred("+target+")/"+key, map[string]any{"history": hstr}, "[%s] "+format, append([]any{hstr}, a...)...)
@@ -343,6 +352,6 @@ func init() {
 		Assumptions: []string{"the direct writer itself is judged by C01/C05; here only equality with it", "callbacks are registered from the same goroutine (OnPut is registration, not a concurrent operation)"},
 		Gen:         genC20,
 		Run:         runC20,
-		MinCover:    map[string]int{"histories": 10000, "lazy-steps-observed": 1000, "byte-comparisons": 5000, "first-put": 1000, "close-before-put": 100, "close-after-put": 500, "histories-with-callbacks": 1000, "failing-stream:put-failed": 100, "failing-stream:close-after-failure": 50},
+		MinCover:    map[string]int{"histories": 10000, "lazy-steps-observed": 1000, "byte-comparisons": 5000, "first-put": 1000, "close-before-put": 100, "close-after-put": 500, "histories-with-callbacks": 1000, "failing-stream:put-failed": 100, "roots:empty-list": 100, "roots:nil": 100, "failing-stream:close-after-failure": 50},
 	})
 }
